@@ -56,10 +56,15 @@ structure Meta where
   cksumType : ChecksumType
   deriving Repr, Inhabited
 
-structure State where
+/-- what never changes during a transaction: configuration, metadata, content of the source file -/
+structure Static where
   cfg : Config
   md : Meta
-  file : Bytes                       -- content of the source file
+  file : Bytes
+  deriving Inhabited
+
+structure State where
+  st : Static
   status : TransactionStatus := .Undefined
   cursor : Option Nat := none        -- file_handle (its stream position)
   naks : List (Nat × Nat) := []
@@ -82,11 +87,15 @@ structure State where
   panicked : Bool := false
   deriving Inhabited
 
+def State.cfg (s : State) : Config := s.st.cfg
+def State.md (s : State) : Meta := s.st.md
+def State.file (s : State) : Bytes := s.st.file
+
 def emit (s : State) (i : Ind) : State := { s with out := s.out ++ [i] }
 
 /-- `SendTransaction::new` -/
 def new (cfg : Config) (md : Meta) (file : Bytes) (now : Nat) : State :=
-  emit { cfg, md, file, timer := Timer.new cfg.ti cfg.max cfg.ta cfg.max cfg.tn cfg.max now } .transaction
+  emit { st := { cfg, md, file }, timer := Timer.new cfg.ti cfg.max cfg.ta cfg.max cfg.tn cfg.max now } .transaction
 
 def eofFlag (s : State) : Bool := match s.eof with | some (_, f) => f | none => false
 
@@ -116,9 +125,12 @@ def getHeader (s : State) (t : PDUType) (len : Nat) : State × Header :=
         src := s.cfg.src, seq := s.cfg.seq, dst := s.cfg.dst }
     ({ s with header := some h }, h)
 
+def ptypeOf : Payload → PDUType
+  | .fileData _ _ | .fileDataSeg _ _ _ _ => .FileData
+  | _ => .FileDirective
+
 def sendPayload (s : State) (p : Payload) : State :=
-  let t : PDUType := match p with | .fileData _ _ | .fileDataSeg _ _ _ _ => .FileData | _ => .FileDirective
-  let r := getHeader s t (p.len s.cfg.fss)
+  let r := getHeader s (ptypeOf p) (p.len s.cfg.fss)
   { r.1 with sent := some { header := r.2, payload := p } }
 
 def isFileTransfer (s : State) : Bool := !s.md.srcName.isEmpty
@@ -182,21 +194,26 @@ def shutdown (s : State) (now : Nat) : State :=
   { s with state := .Terminated,
            timer := { s.timer with ack := s.timer.ack.pause now, inactivity := s.timer.inactivity.pause now } }
 
+/-- `send_missing_data`, first part: pop the request; activity restarts the inactivity timer once
+the sender is waiting for the receiver -/
+def popNak (s : State) (now : Nat) : State :=
+  let s := { s with naks := s.naks.tail }
+  if s.sendState == .SendEof then
+    { s with timer := { s.timer with inactivity := s.timer.inactivity.restart now } } else s
+
+/-- `send_missing_data`, second part: answer the request `(a, b)` -/
+def answerNak (s : State) (a b : Nat) : State :=
+  if b - a > 65535 then { s with panicked := true }   -- `try_into::<u16>()?` (unreachable after splitting)
+  else if a == 0 && b - a == 0 then sendMetadata s
+  else
+    -- the read position of the first pass is saved and restored around the retransmission
+    { sendFileSegment (openHandle s) (some a) (some (b - a)) with cursor := (openHandle s).cursor }
+
 /-- `send_missing_data` -/
 def sendMissingData (s : State) (now : Nat) : State :=
   match s.naks with
   | [] => s
-  | (a, b) :: rest =>
-    let s := { s with naks := rest }
-    let s := if s.sendState == .SendEof then
-        { s with timer := { s.timer with inactivity := s.timer.inactivity.restart now } } else s
-    if b - a > 65535 then { s with panicked := true }   -- `try_into::<u16>()?` (unreachable after splitting)
-    else if a == 0 && b - a == 0 then sendMetadata s
-    else
-      let s := openHandle s
-      let pos := s.cursor
-      let s := sendFileSegment s (some a) (some (b - a))
-      { s with cursor := pos }
+  | (a, b) :: _ => answerNak (popNak s now) a b
 
 /-- `send_prompt` -/
 def sendPrompt (s : State) : State :=
@@ -256,29 +273,38 @@ def handleFault (s : State) (c : Condition) (now : Nat) : State :=
   | .Suspend => suspend s now
   | .Abandon => abandon s now
 
+/-- `send_pdu`, state SendMetadata -/
+def sendPduMetadata (s : State) (now : Nat) : State :=
+  let s := sendMetadata s
+  if isFileTransfer s then { s with sendState := .SendData }
+  else { prepareEof s none now with sendState := .SendEof }
+
+/-- `send_pdu`, state SendData, after the PDU went out: end of the first pass? -/
+def afterData (s : State) (now : Nat) : State :=
+  let s := openHandle s
+  if s.cursor.getD 0 == s.file.length then { prepareEof s none now with sendState := .SendEof } else s
+
+/-- `send_pdu`, state SendData -/
+def sendPduData (s : State) (now : Nat) : State :=
+  afterData (if !s.naks.isEmpty then sendMissingData s now else sendFileSegment s none none) now
+
+/-- `send_pdu`, state SendEof with nothing left to retransmit: the EOF itself -/
+def sendPduEof (s : State) (now : Nat) : State :=
+  let s := sendEof s now
+  let s := if s.eofInd then { emit s .eofSent with eofInd := false } else s
+  if s.cfg.mode == TransmissionMode.Unacknowledged then
+    if !s.md.closure then
+      shutdown (emit s (.finished s.condition s.delivery s.fileStatus s.state s.status [])) now
+    else s
+  else s
+
 /-- `send_pdu` -/
 def sendPdu (s : State) (now : Nat) : State :=
   if s.prompt.isSome then sendPrompt s
   else match s.sendState with
-    | .SendMetadata =>
-      let s := sendMetadata s
-      if isFileTransfer s then { s with sendState := .SendData }
-      else { prepareEof s none now with sendState := .SendEof }
-    | .SendData =>
-      let s := if !s.naks.isEmpty then sendMissingData s now else sendFileSegment s none none
-      let s := openHandle s
-      if s.cursor.getD 0 == s.file.length then { prepareEof s none now with sendState := .SendEof } else s
-    | .SendEof =>
-      if !s.naks.isEmpty then sendMissingData s now
-      else
-        let s := sendEof s now
-        let s := if s.eofInd then { emit s .eofSent with eofInd := false } else s
-        if s.cfg.mode == TransmissionMode.Unacknowledged then
-          if !s.md.closure then
-            let s := emit s (.finished s.condition s.delivery s.fileStatus s.state s.status [])
-            shutdown s now
-          else s
-        else s
+    | .SendMetadata => sendPduMetadata s now
+    | .SendData => sendPduData s now
+    | .SendEof => if !s.naks.isEmpty then sendMissingData s now else sendPduEof s now
     | .Cancelled => sendEof s now
     | .Finished => sendAck s now
 
@@ -329,10 +355,13 @@ inductive Res where
   | ok | unexpected
   deriving DecidableEq, Repr, Inhabited
 
-/-- `process_pdu` -/
-def processPdu (s : State) (p : Pdu) (now : Nat) : State × Res :=
-  let s := if s.sendState == .SendEof then
-      { s with timer := { s.timer with inactivity := s.timer.inactivity.reset now } } else s
+/-- the first statement of `process_pdu`: a PDU from the receiver is progress -/
+def pduArrived (s : State) (now : Nat) : State :=
+  if s.sendState == .SendEof then
+    { s with timer := { s.timer with inactivity := s.timer.inactivity.reset now } } else s
+
+/-- the rest of `process_pdu` -/
+def processPduBody (s : State) (p : Pdu) (now : Nat) : State × Res :=
   match s.cfg.mode with
   | .Acknowledged =>
     match p.payload with
@@ -363,6 +392,9 @@ def processPdu (s : State) (p : Pdu) (now : Nat) : State × Res :=
         (shutdown s now, .ok)
       else (s, .unexpected)
     | _ => (s, .unexpected)
+
+/-- `process_pdu` -/
+def processPdu (s : State) (p : Pdu) (now : Nat) : State × Res := processPduBody (pduArrived s now) p now
 
 /-- `send_report` -/
 def sendReport (s : State) : State := emit s (.report s.state s.status s.condition)
